@@ -43,6 +43,7 @@ type Event struct {
 	Field  string
 	Write  bool
 	Locks  []interface{} // mutexes held by the thread at that moment
+	Excl   []interface{} // the subset of Locks held exclusively (Lock, not RLock)
 	Where  string
 }
 
@@ -92,20 +93,24 @@ func Active() bool { return active != nil }
 
 func (s *Sched) cur() *thread { return s.threads[s.current] }
 
-func (s *Sched) locksOf(t *thread) []interface{} {
+func (s *Sched) locksOf(t *thread) (all, excl []interface{}) {
 	if len(t.held) == 0 {
-		return nil
+		return nil, nil
 	}
-	o := make([]interface{}, 0, len(t.held))
-	for m := range t.held {
-		o = append(o, m)
+	all = make([]interface{}, 0, len(t.held))
+	for m, x := range t.held {
+		all = append(all, m)
+		if x {
+			excl = append(excl, m)
+		}
 	}
-	return o
+	return all, excl
 }
 
 func (s *Sched) record(kind string, ptr interface{}, field string, write bool, where string) {
 	t := s.cur()
-	s.Events = append(s.Events, Event{Thread: t.id, Kind: kind, Ptr: ptr, Field: field, Write: write, Locks: s.locksOf(t), Where: where})
+	all, excl := s.locksOf(t)
+	s.Events = append(s.Events, Event{Thread: t.id, Kind: kind, Ptr: ptr, Field: field, Write: write, Locks: all, Excl: excl, Where: where})
 }
 
 // pause hands control back to the scheduler and waits to be resumed.
@@ -240,7 +245,7 @@ func (s *Sched) acquire(m interface{}, t *thread) {
 			x.m.readers = map[int]int{}
 		}
 		x.m.readers[t.id]++
-		t.held[x.m] = true
+		t.held[x.m] = false // held in shared mode: excludes writers only
 	}
 }
 
